@@ -76,13 +76,24 @@ impl<'a> RegExp<'a> {
             .iter()
             .map(|it| {
                 let lower_test_case = it.to_lowercase();
-                if lower_test_case.chars().count() == it.chars().count() {
+                if lower_test_case.chars().count() == it.chars().count()
+                    && Self::is_case_variant(&lower_test_case, it)
+                {
                     lower_test_case
                 } else {
                     it.to_string()
                 }
             })
             .collect_vec();
+    }
+
+    fn is_case_variant(lower_test_case: &str, test_case: &str) -> bool {
+        // The standard library and the regex crate may be based on different Unicode versions.
+        // A test case is only replaced by its lowercase form if the regex engine itself
+        // considers both to be the same when matching case-insensitively.
+        test_case.is_ascii()
+            || Regex::new(&format!("(?i)^{}$", regex::escape(lower_test_case)))
+                .map_or(false, |regex| regex.is_match(test_case))
     }
 
     fn convert_expr_to_regex(expr: &Expression, config: &RegExpConfig) -> Regex {
